@@ -510,6 +510,10 @@ class Interp:
             return d
         if isinstance(ty, TRec) and isinstance(val, ConstDict):
             return self.new_rec(val.items)
+        if isinstance(ty, TTuple) and (isinstance(val, tuple) or (isinstance(val, ConstSeq) and val.kind == 'tuple')):
+            items = val.items if isinstance(val, ConstSeq) else list(val)
+            if len(items) == len(ty.ts):
+                return tuple(self.materialize(x, t) for x, t in zip(items, ty.ts))
         return val
 
     # ---- lists
@@ -1119,6 +1123,8 @@ class InterpExpr:
             return self.pin_like(v0, t)
         if all(self.family(v) == self.family(v0) for v in vals):
             ty = self.value_type(v0)
+            if ty == INT and any(self.value_type(v) == REAL for v in vals):
+                ty = REAL    # `x / y if y else 0`: the numeric tower, the result is represented as a real
             t = self.coerce_term(v0, ty)
             for c, v in reversed(pairs[:-1]):
                 t = z3.If(self.as_bool(c), self.coerce_term(v, ty), t)
@@ -1585,6 +1591,10 @@ class InterpComp:
         if isinstance(coll, ListV):
             i = self.run.fresh('gi', I)
             return [i], z3.And(0 <= i, i < self.list_len(coll)), self.list_get_nodom(coll, i)
+        if isinstance(coll, ZipV):
+            i = self.run.fresh('gi', I)
+            return [i], z3.And(0 <= i, *[i < self.list_len(l) for l in coll.lists]), \
+                tuple(self.list_get_nodom(l, i) for l in coll.lists)
         if isinstance(coll, (SetV, SymSet)):
             x = self.run.fresh('gx', sort_of(coll.ety))
             guard = self.set_chi(coll)[x]
@@ -1605,6 +1615,21 @@ class InterpComp:
                 return [k], guard, vv
             return [k], guard, (kv, vv)
         raise Unsupported(f'generic iteration over {type(coll).__name__}')
+
+    def seq_len_term(self, it):
+        """length of an indexable symbolic sequence (heap list or zip of heap lists)"""
+        if isinstance(it, ZipV):
+            n = self.list_len(it.lists[0])
+            for l in it.lists[1:]:
+                m = self.list_len(l)
+                n = z3.If(m < n, m, n)
+            return n
+        return self.list_len(it)
+
+    def seq_get(self, it, idx):
+        if isinstance(it, ZipV):
+            return tuple(self.list_get(l, idx) for l in it.lists)
+        return self.list_get(it, idx)
 
     def list_get_nodom(self, l, idx):
         _, da = self.list_data(l)
@@ -1753,9 +1778,25 @@ class InterpStmt:
                 nme, a = self.set_arr(v)
                 self.heap.set(nme, z3.Store(a, v.ref, z3.K(sort_of(v.ety), z3.BoolVal(False))))
 
+    def _typed_local(self, v, s, fr):
+        """`x = []` / `x = {}` where the contract of the function declares the type of the local x (types={'x': ...}):
+        the literal becomes a heap collection of that type (needed when a loop with invariant mutates it)"""
+        if not (isinstance(v, (ConstSeq, ConstDict)) and fr.fi is not None and len(s.targets) == 1
+                and isinstance(s.targets[0], ast.Name)) or (isinstance(v, ConstSeq) and v.kind != 'list'):
+            return v
+        con = self.reg.contracts.get(fr.fi.qualname) or self.reg.loop_contracts.get(fr.fi.qualname)
+        name = s.targets[0].id
+        if con is None or name not in con.types or name in [a.arg for a in fr.fi.node.args.args]:
+            return v
+        ty = self.ts.ann_to_type(ast.parse(con.types[name], mode='eval').body, fr.fi.module, fr.fi.cls)
+        if not isinstance(ty, (TList, TDict)):
+            raise Unsupported(f'declared type {ty} of local {name!r} is not a list or dict type')
+        return self.materialize(v, ty)
+
     def st_Assign(self, s, fr):
         v = self.ev(s.value, fr)
         self._type_fresh_set(v, s, fr)
+        v = self._typed_local(v, s, fr)
         for t in s.targets:
             self.bind_target(t, v, fr, s.lineno)
         self.reg.ghost_after(self, s, fr)
